@@ -313,7 +313,7 @@ func init() {
 		Shards: shards(12, 16),
 		Meta: func(tier string) rt.Meta {
 			return rt.Meta{Level: "exploration", MinEvals: 5000, MinDistinct: 50,
-				Rule:        "random trees of 5-45 nodes built in lockstep on the emulated file system and on the kernel (verified equal before use; MemFS trees contain symbolic links, incl. links to directories and dangling ones); one tree in 75 also holds a directory of 600 entries (names whose byte order differs from their numeric and case-insensitive order); on each tree: ~55 glob patterns (names of the tree with components replaced by *, ?, classes, negated classes, escapes (also escape-only patterns without any other metacharacter), malformed patterns, doubled separators at the start, in the middle and around metacharacters, relative patterns) against filepath.Glob; ReadDir of every directory (names, order, types) against os.ReadDir; WalkDir from several roots with the callback returning SkipDir / SkipAll / an error at EVERY visit index (exhaustive per tree) against filepath.WalkDir (visit sequence with types and error arguments, and return value); Exists/DirExists/IsDir/IsEmpty against Stat/ReadDir of the same file system. File systems: MemFS, OrefaFS, RoFS and FailFS over them, BasePathFS over MemFS. Signature = file system | function | pattern or cut-point class | outcome; non-trivial = at least one match / a real cut point.",
+				Rule:        "random trees of 5-45 nodes built in lockstep on the emulated file system and on the kernel (verified equal before use; MemFS trees contain symbolic links, incl. links to directories and dangling ones); one tree in 75 also holds a directory of 600 entries (names whose byte order differs from their numeric and case-insensitive order); on each tree: ~55 glob patterns (names of the tree with components replaced by *, ?, classes, negated classes, escapes (also escape-only patterns without any other metacharacter), malformed patterns, doubled separators at the start, in the middle and around metacharacters, relative patterns) against filepath.Glob; ReadDir of every directory (names, order, types) against os.ReadDir; WalkDir from several roots with the callback returning SkipDir / SkipAll / an error at EVERY visit index (exhaustive per tree) against filepath.WalkDir (visit sequence with types and error arguments, and return value); Exists/DirExists/IsDir/IsEmpty against Stat/ReadDir of the same file system. File systems: MemFS, OrefaFS, RoFS and FailFS over them, BasePathFS over MemFS (in half of those the current directory of the base is in a sibling whose path starts with the base path). Signature = file system | function | pattern or cut-point class | outcome; non-trivial = at least one match / a real cut point.",
 				Assumptions: []string{"unreadable directories for a non-administrator are covered by the random part of C03 (ReadDir) and not re-walked here"}}
 		},
 		Timeout: func(tier string) int {
